@@ -461,7 +461,7 @@ HAND_SCALED = [
 
 def mk_suite() -> Suite:
     return Suite(name="lint", imports=IMPORTS, in_ty="(option num * list (list node))", out_ty="(lres (list lint))",
-                 check="check_lint", show="lint_scaled", shard=100)
+                 check="check_lint", show="lint_scaled", shard=60)
 
 
 def gen_scale(rng: random.Random) -> Any:
